@@ -12,23 +12,24 @@ import OFV.Lemmas.Size
 import OFV.Lemmas.SizeList
 import OFV.Lemmas.Hist
 namespace OFV.Model.Hist
-open OFV OFV.Go OFV.Model
+open OFV OFV.Go OFV.Model InstrAux
 
-/-- Len() returns normally, and MarshalBinary() of the value as Len() leaves it returns normally -/
+/-- Len() returns normally WITHOUT modifying the value (true of everything the constructors and adders build), and
+    MarshalBinary() returns normally -/
 def Encodes (lenM : V → R (UInt16 × V)) (marM : V → R (Bytes × V)) (x : V) : Prop :=
-  ∃ l x1 bs x2, lenM x = .ok (l, x1) ∧ marM x1 = .ok (bs, x2)
+  (∃ l, lenM x = .ok (l, x)) ∧ ∃ bs x', marM x = .ok (bs, x')
 
 theorem encodes_list (lenM : V → R (UInt16 × V)) (marM : V → R (Bytes × V)) :
     ∀ xs : List V, (∀ x ∈ xs, Encodes lenM marM x) →
-    ∃ ls xs1 bss xs2, mapM2 lenM xs = .ok (ls, xs1) ∧ mapM2 marM xs1 = .ok (bss, xs2) := by
+    ∃ ls bss xs2, mapM2 lenM xs = .ok (ls, xs) ∧ mapM2 marM xs = .ok (bss, xs2) := by
   intro xs
   induction xs with
-  | nil => intro _; exact ⟨[], [], [], [], rfl, rfl⟩
+  | nil => intro _; exact ⟨[], [], [], rfl, rfl⟩
   | cons x xs ih =>
     intro h
-    obtain ⟨l, x1, bs, x2, h1, h2⟩ := h x (List.mem_cons_self ..)
-    obtain ⟨ls, xs1, bss, xs2, h3, h4⟩ := ih (fun y hy => h y (List.mem_cons_of_mem _ hy))
-    exact ⟨l :: ls, x1 :: xs1, bs :: bss, x2 :: xs2, by simp [mapM2, h1, h3], by simp [mapM2, h2, h4]⟩
+    obtain ⟨⟨l, h1⟩, bs, x2, h2⟩ := h x (List.mem_cons_self ..)
+    obtain ⟨ls, bss, xs2, h3, h4⟩ := ih (fun y hy => h y (List.mem_cons_of_mem _ hy))
+    exact ⟨l :: ls, bs :: bss, x2 :: xs2, by simp [mapM2, h1, h3], by simp [mapM2, h2, h4]⟩
 
 theorem marshalList_of_mapM2 (f : V → R (Bytes × V)) : ∀ (xs : List V) (bss : List Bytes) (xs' : List V) (e : Bool),
     mapM2 f xs = .ok (bss, xs') → marshalList f xs e = .ok (bss.flatten, xs', if xs = [] then e else false) := by
@@ -67,5 +68,67 @@ theorem flowMod_encodes (ver ty xid : Nat) (ln : V) (ck cm tid cmd it ht pr bid 
   · simp only [FlowMod.marshalM, FlowMod.lenM, hml, Res.bind_ok, if_neg hd, hls, Header.setLength, V.u16, Header.bytes,
       catchErr, hmb, marshalList_of_mapM2_false _ _ _ _ hbs]
     exact ⟨_, _, rfl, by simp [zeros_length]; omega⟩
+
+/-- an apply/write-actions instruction with a numeric type and any stored length, whose actions encode, encodes
+    (through the Instruction interface) -/
+theorem instrActions_encodes (ty : Nat) (x : V) (pad : Bytes) (as : List V)
+    (h : ∀ a ∈ as, Encodes Action.lenM Action.marshalM a) :
+    Encodes Instruction.lenM Instruction.marshalM
+      (.obj "InstrActions" [.obj "InstrHeader" [.num ty, x], .bytes pad, .list as]) := by
+  obtain ⟨ls, bss, as2, h1, h2⟩ := encodes_list _ _ as h
+  constructor
+  · exact ⟨8 + sum16 ls, by simp [Instruction.lenM, V.kind, InstrActions.lenM, h1]⟩
+  · simp only [Instruction.marshalM, V.kind, InstrActions.marshalM, InstrActions.lenM, h1, Res.bind_ok, V.u16,
+      InstrHeader.bytes, marshalList_of_mapM2_false _ _ _ _ h2]
+    exact ⟨_, _, rfl⟩
+
+/-- a bucket with numeric weight / watch fields whose actions encode, encodes (as GroupMod encodes it: on a copy) -/
+theorem bucket_encodes (l : V) (w wp wg : Nat) (p : V) (as : List V)
+    (h : ∀ a ∈ as, Encodes Action.lenM Action.marshalM a) :
+    Encodes Bucket.lenM Bucket.marshalCopyM (.obj "Bucket" [l, .num w, .num wp, .num wg, p, .list as]) := by
+  obtain ⟨ls, bss, as2, h1, h2⟩ := encodes_list _ _ as h
+  constructor
+  · exact ⟨round8 (16 + sum16 ls), by simp [Bucket.lenM, h1]⟩
+  · simp only [Bucket.marshalCopyM, Bucket.marshalM, Bucket.lenM, h1, Res.bind_ok, marshalList_of_mapM2_false _ _ _ _ h2]
+    exact ⟨_, _, rfl⟩
+
+/-- GroupMod.MarshalBinary() SUCCEEDS — any command, type, group id — when every bucket encodes -/
+theorem groupMod_encodes (ver ty xid : Nat) (ln : V) (cmd t p g : Nat) (bks : List V)
+    (ls : List UInt16) (bks1 : List V) (bss : List Bytes) (bks2 : List V)
+    (hls : mapM2 Bucket.lenM bks = .ok (ls, bks1)) (hbs : mapM2 Bucket.marshalCopyM bks1 = .ok (bss, bks2)) :
+    ∃ bs v', GroupMod.marshalM (.obj "GroupMod" [.obj "Header" [.num ver, .num ty, ln, .num xid], .num cmd, .num t, .num p,
+        .num g, .list bks]) = .ok (bs, v') ∧
+      bs.length = 16 + (if cmd = Gen.openflow13.OFPGC_DELETE then 0 else bss.flatten.length) := by
+  by_cases hd : cmd = Gen.openflow13.OFPGC_DELETE
+  · simp only [GroupMod.marshalM, GroupMod.lenM, if_pos hd, Res.bind_ok, Header.setLength, V.u16, Header.bytes]
+    exact ⟨_, _, rfl, by simp⟩
+  · simp only [GroupMod.marshalM, GroupMod.lenM, if_neg hd, hls, Res.bind_ok, Header.setLength, V.u16, Header.bytes,
+      marshalList_of_mapM2_false _ _ _ _ hbs]
+    exact ⟨_, _, rfl, by simp; omega⟩
+
+/-- InstrActions.AddAction(act, false) over ANY list of actions whose Len() is stable: the actions are appended in
+    call order, type and pad are untouched, the header's Length is rewritten at every call -/
+theorem instrActions_fold : ∀ (as : List V) (ty : Nat) (x0 : V) (pad : Bytes) (as0 : List V),
+    (∀ a ∈ as0 ++ as, Encodes Action.lenM Action.marshalM a) →
+    ∃ x, foldAdd (fun v a => InstrActions.addAction v a false)
+        (.obj "InstrActions" [.obj "InstrHeader" [.num ty, x0], .bytes pad, .list as0]) as =
+      .ok (.obj "InstrActions" [.obj "InstrHeader" [.num ty, x], .bytes pad, .list (as0 ++ as)]) := by
+  intro as
+  induction as with
+  | nil => intro ty x0 pad as0 _; exact ⟨x0, by simp [foldAdd, runOps]⟩
+  | cons a as ih =>
+    intro ty x0 pad as0 h
+    have h' : ∀ b ∈ (as0 ++ [a]) ++ as, Encodes Action.lenM Action.marshalM b := by
+      intro b hb; apply h; simpa using hb
+    obtain ⟨ls, _, _, h1, _⟩ := encodes_list _ _ (as0 ++ [a]) (fun b hb => h' b (List.mem_append_left _ hb))
+    obtain ⟨x, hx⟩ := ih ty (V.u16 (8 + sum16 ls)) pad (as0 ++ [a]) h'
+    refine ⟨x, ?_⟩
+    have step : InstrActions.addAction (.obj "InstrActions" [.obj "InstrHeader" [.num ty, x0], .bytes pad, .list as0]) a false =
+        .ok (.obj "InstrActions" [.obj "InstrHeader" [.num ty, V.u16 (8 + sum16 ls)], .bytes pad, .list (as0 ++ [a])]) := by
+      simp [InstrActions.addAction, InstrActions.lenM, h1]
+    simp only [foldAdd] at hx
+    show (InstrActions.addAction _ a false >>= fun v' => runOps _ v' as) = _
+    rw [step, Res.bind_ok, hx]
+    simp
 
 end OFV.Model.Hist
